@@ -196,3 +196,53 @@ def loop_carried_strings(b, loop_has):
                 at = sorted(apps)[0]
             out.append((L, name, status, why, at))
     return out
+
+
+def autocorrect_lookup(prog):
+    """The auto-correct look-up as an expression, wherever it is written (a helper's return value or in place in the builder):
+    [(fn key, body, E)] — E is the outermost Option<&…> value built from a `get` on the user auto-correct map."""
+    R = roles(prog)
+    out = []
+    for k, f in prog.fns.items():
+        if f.get("kind") == "Closure" or (f.get("impl") or {}).get("self") != R["sug_ty"]:
+            continue
+        b = prog.body(k)
+
+        def is_user_get(x):
+            return x.k == "call" and x.a[0].endswith("::get") and "HashMap" in x.a[0] and x.a[1] and self_path(x.a[1][0]) == (R["user_autocorrect"],)
+        best = None
+        for (bb, t) in b.calls():
+            if t["dest"]["p"] or not t["dest"]["ty"].startswith("std::option::Option<&"):
+                continue
+            args = tuple(b.expr_operand(a) for a in t["args"])
+            e = E("call", callee_name(t), args, bb, t=t)
+            if any(is_user_get(x) for x in e.walk()):
+                size = sum(1 for _ in e.walk())
+                if best is None or size > best[0]:
+                    best = (size, e)
+        if best:
+            out.append((k, b, best[1]))
+    return out
+
+
+def is_autocorrect_value(prog, e, depth=0):
+    """e's provenance includes the user auto-correct map or the bundled auto-correct accessor (possibly through a local look-up helper)."""
+    R = roles(prog)
+    for x in e.walk():
+        if x.k != "call":
+            continue
+        if x.a[0].endswith("::get") and "HashMap" in x.a[0] and x.a[1] and self_path(x.a[1][0]) == (R["user_autocorrect"],):
+            return True
+        if x.a[0] == "data::Data::search_corrected":
+            return True
+        if x.a[0] in prog.fns and depth < 3 and (prog.fns[x.a[0]].get("output") or "").startswith("std::option::Option<&") \
+                and prog.fns[x.a[0]].get("kind") != "Closure":
+            if is_autocorrect_value(prog, prog.body(x.a[0]).expr_local(0), depth + 1):
+                return True
+        if x.k == "call" and x.a[0].endswith("::or_else"):
+            for a in x.a[1]:
+                a = strip_refs(a)
+                if a.k == "agg" and str(a.a[0]).startswith("closure:") and depth < 3:
+                    if is_autocorrect_value(prog, prog.body(a.a[0][8:]).expr_local(0), depth + 1):
+                        return True
+    return False
